@@ -354,7 +354,7 @@ def _batches(rng, tier):
             base = r.choice(BASES[T])
             a = rand_box(r, n, clo, chi, base)
             if r.chance(1, 2):
-                ps = [[base + r.range(clo - 1, chi + 1) for _ in range(n)] for _ in range(r.range(0, 5))]
+                ps = [[max(base + r.range(clo - 1, chi + 1), 0 if not SIGNED[T] else -(1 << 62)) for _ in range(n)] for _ in range(r.range(0, 5))]
                 ops.append(f"foldp {T} {n} {vs(a[0])} {vs(a[1])}" + "".join(" " + vs(q) for q in ps))
             else:
                 bs = [rand_box(r, n, clo, chi, base) for _ in range(r.range(0, 4))]
